@@ -1588,6 +1588,239 @@ def r11_forwarded_element_present(run):
                                      "req.forwarded_host == 'internal' and req.forwarded_scheme == 'https' are read from what is really the second hop")
     run.extra['c09_r11'] = {'element_variable': elem, 'creation_nodes': len(creation_nodes), 'present_edges': len(present_edges)}
 
+# ---------------------------------------------------------------------------
+# R12 access_route: parse_host receives the Forwarded node value itself
+# ---------------------------------------------------------------------------
+
+_PARSE_HOST = 'falcon.util.uri.parse_host'
+_COLON_CUTTERS = ('split', 'rsplit', 'partition', 'rpartition')
+
+
+def _node_provenance(p, f: Func, hop: str, attr: str):
+    """Provenance of a text relative to `<hop>.<attr>` (the node value of one Forwarded element): the engine's
+    value-provenance reader (sa.rules.c15_helpers.Provenance), rooted at an attribute of the loop variable instead
+    of a parameter, and reading tuple-unpacked pieces of a str cutter as a narrowing step."""
+    from .c15_helpers import NARROWING_METHODS, Origin, Provenance
+
+    class NodeProvenance(Provenance):
+        def _is_root(self, e):
+            return isinstance(e, ast.Attribute) and e.attr == attr and isinstance(e.value, ast.Name) and e.value.id == hop
+
+        def _name(self, name, nid):
+            if name == hop:
+                return Origin()          # the element object, not its text
+            return Provenance._name(self, name, nid)
+
+        def classify_any(self, e, nid):
+            out = Origin()
+            stack = [e]
+            while stack:
+                x = stack.pop()
+                if self._is_root(x):
+                    out = out.merge(Origin(True))
+                    continue
+                if isinstance(x, ast.Name) and isinstance(x.ctx, ast.Load):
+                    out = out.merge(self._name(x.id, nid))
+                if isinstance(x, (ast.Lambda, ast.FunctionDef, ast.AsyncFunctionDef)):
+                    continue
+                stack.extend(ast.iter_child_nodes(x))
+            return out
+
+        def classify(self, e, nid):
+            if self._is_root(e):
+                return Origin(True)
+            if isinstance(e, ast.Attribute) and isinstance(e.value, ast.Name) and e.value.id == hop:
+                return Origin()          # another field of the element
+            return Provenance.classify(self, e, nid)
+
+        def _def(self, d):
+            if d.kind == 'unpack' and d.idx not in self._memo:
+                v = d.value
+                if isinstance(v, ast.Call) and isinstance(v.func, ast.Attribute) and v.func.attr in NARROWING_METHODS:
+                    recv = self.classify(v.func.value, d.node)
+                    if recv.derived:
+                        r = recv.step('narrow', v, 'a tuple-unpacked piece of str.%s' % v.func.attr)
+                        self._memo[d.idx] = r
+                        return r
+            return Provenance._def(self, d)
+
+    return NodeProvenance(p, f, None, root_local=hop)
+
+
+def r12_route_node_verbatim(run):
+    """RFC 7239 6: node = nodename [ ":" node-port ], nodename = IPv4address / "[" IPv6address "]" / "unknown" /
+    obfnode.  Only `parse_host` knows the bracket grammar (C10 R6 decides it), so the text both `access_route`
+    implementations hand to it from a Forwarded `for=` node must be the node value itself: no colon-based
+    pre-splitting (rpartition / split / slicing), no rewriting on the way.  (A whitespace strip is a lenient
+    reading and is let through.)
+    W: `Forwarded: for="[2001:db8:cafe::17]"` -> access_route[0] == '2001:db8:cafe'; `for="[::1]"` -> ''."""
+    from .c09_helpers import node_of
+    p = run.project
+    target = p.func(_PARSE_HOST)
+    n_calls = 0
+    for cq in (WSGI_REQ, ASGI_REQ):
+        f = p.lookup_method(cq, 'access_route')
+        if f is None or f.cls is None or f.cls.qual != cq:
+            raise AnchorError('%s does not define access_route' % cq)
+        run.use(f)
+        loops = [n for n in walk_no_nested(f.node) if isinstance(n, ast.For) and isinstance(n.target, ast.Name)
+                 and any(is_self_attr(x, 'forwarded') for x in walk_self(n.iter))]
+        if len(loops) != 1:
+            raise UnknownIdiom('%s: expected one loop over the elements of self.forwarded, found %d' % (f.qual, len(loops)))
+        loop = loops[0]
+        hop = loop.target.id
+        calls = [c for c in walk_no_nested(loop) if isinstance(c, ast.Call) and p.resolve_callable(f, c.func) is target]
+        if not calls:
+            raise AnchorError('%s: the hop loop does not call parse_host' % f.qual)
+        # which field of the element is the node: the one the guarded call reads (`for=` is stored as .src by the parser, R7)
+        prov = _node_provenance(p, f, hop, 'src')
+        cfg = cfg_of(f, p)
+        run.use_cfg(cfg)
+        for c in calls:
+            n_calls += 1
+            if not c.args:
+                raise UnknownIdiom('%s: %s passes the host by keyword' % (f.qual, short(c)))
+            o = prov.classify(c.args[0], node_of(cfg, c))
+            if not o.derived:
+                raise UnknownIdiom('%s: the argument of %s does not derive from %s.src' % (f.qual, short(c), hop))
+            bad = []
+            for kind, node, why in o.xforms:
+                if isinstance(node, ast.Call) and isinstance(node.func, ast.Attribute) and node.func.attr in ('strip', 'lstrip', 'rstrip') \
+                        and not node.keywords and all(isinstance(a, ast.Constant) and isinstance(a.value, str) and a.value.strip() == '' for a in node.args):
+                    continue  # whitespace only: a lenient reading
+                bad.append((kind, node, why))
+            if not bad:
+                run.ok('%s hands the Forwarded node value (%s.src) to parse_host as it is' % (f.qual, hop), f.loc(c), c)
+                continue
+            seen = set()
+            for kind, node, why in bad:
+                k = short(node, 120)
+                if k in seen:
+                    continue
+                seen.add(k)
+                run.fail('%s cuts / rewrites the Forwarded node value before parse_host sees it (%s): only parse_host knows that the colons '
+                         'inside "[...]" belong to an IPv6 address' % (f.qual, why), f, node, where=f.loc(node),
+                         witness=['argument of %s' % short(c)] + o.describe(),
+                         runtime_witness='Forwarded: for="[2001:db8:cafe::17]" (no port) -> req.access_route[0] == \'2001:db8:cafe\'; for="[::1]" -> \'\'')
+    run.extra['c09_r12'] = {'parse_host_calls_in_hop_loops': n_calls}
+
+# ---------------------------------------------------------------------------
+# R13 Forwarded: a quoted value is read as RFC 9110 5.6.4 says (sample evaluation)
+# ---------------------------------------------------------------------------
+
+_FWD_FIELD = {'for': 'src', 'by': 'dest', 'host': 'host', 'proto': 'scheme'}
+# raw parameter values (RFC 7239 4: value = token / quoted-string): quoted-strings with a quoted-pair at the
+# start, in the middle and -- the case slicing-by-character-class gets wrong -- at the very end
+_FWD_QUOTED = (r'"192.0.2.43:47011"', r'"[2001:db8:cafe::17]:4711"', r'"[2001:db8:cafe::17]"', r'""', r'"\""', r'"\"quoted\""',
+               r'"203.0.113.43\""', r'"1\.2\.3\.4"', r'"\"\\"', r'"a\\"', r'"\\\""', r'"_don\"t_\try_this\\at_home_\42"', r'"x y"', r'"a,b;c=d"',
+               r'"\"\""')
+_FWD_TOKENS = ('192.0.2.60', '_SEVKISEK', 'unknown', 'example.com')
+
+
+def _ref_unquote(raw: str) -> str:
+    """quoted-string = DQUOTE *( qdtext / quoted-pair ) DQUOTE; quoted-pair = "\\" ( HTAB / SP / VCHAR / obs-text ):
+    drop the two enclosing DQUOTEs, replace every quoted-pair by its second octet."""
+    body = raw[1:-1]
+    out = []
+    i = 0
+    while i < len(body):
+        if body[i] == '\\' and i + 1 < len(body):
+            out.append(body[i + 1])
+            i += 2
+        else:
+            out.append(body[i])
+            i += 1
+    return ''.join(out)
+
+
+def _fwd_samples():
+    """[(header text, [expected {field: value}])]"""
+    out = []
+    names = ('for', 'by', 'host')
+    # one element per quoted value, the parameter name rotating; a second parameter after it shows that the cut ends at the right quote
+    for i, raw in enumerate(_FWD_QUOTED):
+        nm = names[i % 3]
+        other = 'proto' if nm != 'by' else 'host'
+        oval = 'HTTPS' if other == 'proto' else 'example.org'
+        out.append(('%s=%s;%s=%s' % (nm, raw, other, oval), [{nm: raw, other: oval}]))
+    out.append(('for=%s;by=%s, for=%s;proto=%s;host=%s' % (_FWD_TOKENS[0], _FWD_TOKENS[1], _FWD_QUOTED[6], '"HTTP"', _FWD_TOKENS[3]),
+                [{'for': _FWD_TOKENS[0], 'by': _FWD_TOKENS[1]}, {'for': _FWD_QUOTED[6], 'proto': '"HTTP"', 'host': _FWD_TOKENS[3]}]))
+    out.append(('For=%s, FOR=%s' % (_FWD_TOKENS[2], _FWD_QUOTED[5]), [{'for': _FWD_TOKENS[2]}, {'for': _FWD_QUOTED[5]}]))
+    res = []
+    for text, elems in out:
+        exp = []
+        for el in elems:
+            d = {'src': None, 'dest': None, 'host': None, 'scheme': None}
+            for nm, raw in el.items():
+                v = _ref_unquote(raw) if raw.startswith('"') else raw
+                d[_FWD_FIELD[nm]] = v.lower() if nm == 'proto' else v
+            exp.append(d)
+        res.append((text, exp))
+    return res
+
+
+def r13_forwarded_quoted_values(run):
+    """RFC 7239 4 / RFC 9110 5.6.4: a quoted parameter value stands for the text between its two enclosing
+    DQUOTEs with every quoted-pair `\\x` replaced by `x` -- exactly ONE leading and ONE trailing DQUOTE go
+    (`.strip('"')`, `.replace('"', '')` remove more), and the un-escaping comes after.  Decided by evaluating
+    `_parse_forwarded_header` (and the helpers / module-level patterns it uses) on a finite set of sample headers
+    whose quoted-strings carry a quoted-pair first, in the middle and last, against an independent reader.
+    W: `Forwarded: host="\\"quoted\\""` -> req.forwarded[0].host == '"quoted\\\\' instead of '"quoted"'."""
+    from .c09_helpers import CObj, ConcreteEval, CRaise
+    p = run.project
+    f = p.func(_FWD_PARSER)
+    run.use(f)
+    if len(f.params()) != 1:
+        raise AnchorError('%s: expected one parameter (the header text)' % f.qual)
+    problems: Dict[str, dict] = {}
+    n_ok = 0
+    samples = _fwd_samples()
+    for text, exp in samples:
+        ev = ConcreteEval(p)
+        try:
+            got = ev.call_func(f, [text], {})
+        except CRaise as ex:
+            raise UnknownIdiom('%s: evaluating the parser on the sample %r raised %s at %s' % (f.qual, text, ex.cls, short(ex.node, 60) if ex.node is not None else '?'))
+        if not isinstance(got, list) or not all(isinstance(x, CObj) for x in got):
+            raise UnknownIdiom('%s: the parser does not answer a list of Forwarded objects on the sample %r' % (f.qual, text))
+        obs = [{k: x.attrs.get(k) for k in _FWD_ATTRS} for x in got]
+        if obs == exp:
+            n_ok += 1
+            run.ok('Forwarded: %s is read as %s (independent RFC 9110 quoted-string reader agrees)' % (
+                text, '; '.join(','.join('%s=%r' % (k, v) for k, v in d.items() if v is not None) for d in exp)), f.loc(), 'sample: %s' % text)
+            continue
+        # name the construct that produced the first wrong field
+        cons = None
+        detail = 'the parser answers %d element(s), the header has %d' % (len(obs), len(exp))
+        for i, (o, e) in enumerate(zip(obs, exp)):
+            for k in _FWD_ATTRS:
+                if o[k] != e[k] and cons is None:
+                    detail = 'element %d: %s is %r, an RFC-level reader gives %r' % (i, k, o[k], e[k])
+                    store_at = None
+                    for j, t in enumerate(ev.trace):
+                        if t[0] == 'setattr' and t[2][0] is got[i] and t[2][1] == k and t[2][2] == o[k]:
+                            store_at = j
+                    if store_at is not None:
+                        cons = ev.trace[store_at][1]
+                        for t in reversed(ev.trace[:store_at]):
+                            if t[0] == 'setattr' and t[3] == f.qual:
+                                break
+                            if t[0] == 'assign' and t[3] == f.qual and isinstance(t[2], str) and t[2] == o[k] and isinstance(t[1], ast.Assign) \
+                                    and all(isinstance(x, ast.Name) for x in t[1].targets) and not isinstance(t[1].value, ast.Name):
+                                cons = t[1]
+                                break
+        key = short(cons, 160) if cons is not None else 'elements'
+        d = problems.setdefault(key, {'cons': cons, 'wit': []})
+        d['wit'].append('Forwarded: %s -> %s' % (text, detail))
+    for key in sorted(problems):
+        d = problems[key]
+        cons = d['cons'] if d['cons'] is not None else 'forwarded-elements'
+        run.fail('the Forwarded parser does not read a syntactically valid header as RFC 7239 / RFC 9110 5.6.4 say '
+                 '(a quoted value = the text between its two enclosing DQUOTEs, quoted-pairs un-escaped): %s' % d['wit'][0], f, cons,
+                 where=f.loc(cons) if isinstance(cons, ast.AST) else f.loc(), witness=d['wit'][:8],
+                 runtime_witness='Forwarded: host="\\"quoted\\"" -> req.forwarded[0].host / req.forwarded_host lose the final quote and keep a dangling backslash')
+    run.extra['c09_r13'] = {'samples': len(samples), 'agree': n_ok}
+
 
 def check(run):
     run.assume('E5 assumptions: str/bytes/re/dict.get methods and in-range sequence subscripts are total; unresolved '
@@ -1608,3 +1841,5 @@ def check(run):
     run.rule('R7', r7_forwarded_case, 'Forwarded: only parameter names and the scheme are case-folded', floor=2)
     run.rule('R10', r10_etag_wildcard, "entity-tag reader: the wildcard answer only for a whole value equal to '*'; no comma cutting of the header text", floor=2)
     run.rule('R11', r11_forwarded_element_present, 'Forwarded: every consumed pair (known or extension parameter) leaves its element created', floor=1)
+    run.rule('R12', r12_route_node_verbatim, 'access_route: parse_host receives the Forwarded node value itself (no colon pre-splitting), both stacks', floor=2)
+    run.rule('R13', r13_forwarded_quoted_values, 'Forwarded: quoted values lose exactly the two enclosing DQUOTEs, then quoted-pairs are un-escaped (sample evaluation against an independent reader)', floor=1)
